@@ -8,7 +8,7 @@ for d in /verif/seeded/*/; do
   n=$(basename "$d"); p=$(echo "$n" | cut -c1-3)
   ALL="$ALL ${d}patch.diff:$p"
 done
-ALL="$ALL /verif/mutants/revert-e6b20d9.diff:C06,C07,C18 /verif/mutants/revert-3fc795c.diff:C03,C11 /verif/mutants/revert-bbd90cc.diff:C04 /verif/mutants/revert-e133290.diff:C04 /verif/mutants/revert-84d5135.diff:C02,C11,C16 /verif/mutants/revert-cab2413.diff:C08,C01 /verif/mutants/revert-630a8f5.diff:C08 /verif/mutants/revert-c62f2b5.diff:C20 /verif/mutants/revert-75606fc.diff:C07 /verif/mutants/revert-e3dd9f6.diff:C14 /verif/mutants/revert-0abfc06.diff:C19 /verif/mutants/revert-f7cfb70.diff:C08 /verif/mutants/revert-c43b0f5.diff:C06 /verif/mutants/revert-ad0fb3f.diff:C13,C18 /verif/mutants/revert-645f7b7.diff:C13,C18 /verif/mutants/revert-845aa87.diff:C04,C16 /verif/mutants/revert-32361ca.diff:C13"
+ALL="$ALL /verif/mutants/revert-e6b20d9.diff:C06,C07,C18 /verif/mutants/revert-3fc795c.diff:C03,C11 /verif/mutants/revert-bbd90cc.diff:C04 /verif/mutants/revert-e133290.diff:C04 /verif/mutants/revert-84d5135.diff:C02,C11,C16 /verif/mutants/revert-cab2413.diff:C08,C01 /verif/mutants/revert-630a8f5.diff:C08 /verif/mutants/revert-c62f2b5.diff:C20 /verif/mutants/revert-75606fc.diff:C07 /verif/mutants/revert-e3dd9f6.diff:C14 /verif/mutants/revert-0abfc06.diff:C19 /verif/mutants/revert-f7cfb70.diff:C08 /verif/mutants/revert-c43b0f5.diff:C06 /verif/mutants/revert-ad0fb3f.diff:C13,C18 /verif/mutants/revert-645f7b7.diff:C13,C18 /verif/mutants/revert-845aa87.diff:C04,C16 /verif/mutants/revert-32361ca.diff:C13 /verif/mutants/revert-5a63456.diff:C18 /verif/mutants/revert-53e4fa7.diff:C06"
 ARGS=""; i=0
 for a in $ALL; do
   if [ $((i % N)) -eq "$K" ]; then ARGS="$ARGS $a"; fi
